@@ -92,8 +92,8 @@ def index_ok(r0: bool, r1: bool, c0: bool, c1: bool, row: int, col: int) -> bool
 
 
 # ---- text keys, mixed types, wildcards (selectors; public MATCH) ----------------
-TEXTS = ['apple', 'Apple', 'APRICOT', 'b?', 'b*', 'banana', 'b~*', 'by']
-MIXED = [3, 'apple', True, 'Banana', 3, sh.EMPTY, 'BY', 'b*', False, 'apple']
+TEXTS = ['apple', 'Apple', 'APRICOT', 'b?', 'b*', 'banana', 'b~*', 'by', 'B', '?', 'b??', '*a']
+MIXED = [3, 'apple', True, 'Banana', 3, sh.EMPTY, 'b', 'BY', 'b*', False, 'apple']
 
 
 def wild(pattern, text):
@@ -124,11 +124,35 @@ def _match_text(k):
     return bool(got == want) if not isinstance(want, XlError) else got is want
 
 
-def match_text_ok(k0: bool, k1: bool, k2: bool) -> bool:
+def match_text_ok(k0: bool, k1: bool, k2: bool, k3: bool) -> bool:
     """
+    pre: sel(k0, k1, k2, k3) < len(TEXTS)
     post: _
     """
-    return concrete(_match_text, sel(k0, k1, k2))
+    return concrete(_match_text, sel(k0, k1, k2, k3))
+
+
+SORTED_TEXT = ['apple', 'Banana', 'cherry', 'Damson', 'fig']
+LOOK_TEXT = ['apple', 'APPLE', 'blueberry', 'Cherry', 'aardvark', 'zebra', 'damson', 'Elder', 'banana', 'FIG']
+
+
+def _match_text_approx(k, desc, n):
+    # approximate modes on text keys: compared case-insensitively like the exact mode
+    keys = SORTED_TEXT[:n]
+    if desc:
+        keys = keys[::-1]
+    v = LOOK_TEXT[k]
+    got = np.ravel(F['MATCH'](v, np.asarray([keys], object), -1 if desc else 1))[0]
+    want = last_pos(keys, (lambda x: x.upper() >= v.upper()) if desc else (lambda x: x.upper() <= v.upper()))
+    return bool(got == want) if not isinstance(want, XlError) else got is want
+
+
+def match_text_approx_ok(k0: bool, k1: bool, k2: bool, k3: bool, desc: bool, n0: bool, n1: bool) -> bool:
+    """
+    pre: sel(k0, k1, k2, k3) < len(LOOK_TEXT)
+    post: _
+    """
+    return concrete(_match_text_approx, sel(k0, k1, k2, k3), True if desc else False, 2 + sel(n0, n1))
 
 
 def _match_types(k):
@@ -159,29 +183,35 @@ FIRST = [[1, 3, 5], [2, 2, 9], [-1, 0, 4], ['a', 'c', 'e'], [1, 'b', True]]
 KEYS = [0, 1, 2, 3, 4, 5, 6, 'a', 'b', 'd', True, 9.5]
 
 
-def _lookup(f, k, col, exact):
+def _lookup(f, k, col, exact, wide=False):
     first, key = FIRST[f], KEYS[k]
-    table = np.asarray([[first[i], 'r%d' % i, i * 1.5] for i in range(3)], object)
+    if wide:        # more columns than rows
+        table = np.asarray([[first[i], 'r%d' % i, i * 1.5, 'w%d' % i] for i in range(2)], object)
+    else:
+        table = np.asarray([[first[i], 'r%d' % i, i * 1.5] for i in range(3)], object)
     mode = 0 if exact else 1
     pos = np.ravel(F['MATCH'](key, table[:, :1], mode))[0]
     want = pos if isinstance(pos, XlError) else np.ravel(F['INDEX'](table, pos, col))[0]
-    if col > 3:
-        want = REF if not False else want
+    ncol = table.shape[1]
+    if col > ncol:
+        want = REF
     got_v = np.ravel(F['VLOOKUP'](key, table, col, not exact))[0]
     got_h = np.ravel(F['HLOOKUP'](key, table.T, col, not exact))[0]
     ok = all((g is want) if isinstance(want, XlError) else bool(g == want and type(g) == type(want)) for g in (got_v, got_h))
-    if col <= 3 and not exact:
+    if col <= ncol and not exact:
         got_l = np.ravel(F['LOOKUP'](key, table[:, 0], table[:, col - 1]))[0]
         ok = ok and ((got_l is want) if isinstance(want, XlError) else bool(got_l == want))
     return bool(ok)
 
 
-def lookup_ok(f0: bool, f1: bool, f2: bool, k0: bool, k1: bool, k2: bool, k3: bool, c0: bool, c1: bool, exact: bool) -> bool:
+def lookup_ok(f0: bool, f1: bool, f2: bool, k0: bool, k1: bool, k2: bool, k3: bool, c0: bool, c1: bool, c2: bool,
+              exact: bool, wide: bool) -> bool:
     """
-    pre: sel(f0, f1, f2) < len(FIRST) and sel(k0, k1, k2, k3) < len(KEYS)
+    pre: sel(f0, f1, f2) < len(FIRST) and sel(k0, k1, k2, k3) < len(KEYS) and sel(c0, c1, c2) < 5
     post: _
     """
-    return concrete(_lookup, sel(f0, f1, f2), sel(k0, k1, k2, k3), 1 + sel(c0, c1), True if exact else False)
+    return concrete(_lookup, sel(f0, f1, f2), sel(k0, k1, k2, k3), 1 + sel(c0, c1, c2), True if exact else False,
+                    True if wide else False)
 
 
 # ---- COUNTIF / SUMIF / AVERAGEIF --------------------------------------------------
